@@ -337,6 +337,10 @@ static std::vector<Test> catalogue(bool real, bool quick) {
 			struct M { const char *e; int mul; unsigned long k; int add; };
 			const M ms[] = {{"3", 3, 0, 0}, {"3*2^6", 3, 6, 0}, {"3*2^14", 3, 14, 0}, {"3*2^62", 3, 62, 0}, {"3*2^126", 3, 126, 0}, {"3*2^1022", 3, 1022, 0},
 			                {"2^1+1", 1, 1, 1}, {"2^7+1", 1, 7, 1}, {"2^8+1", 1, 8, 1}, {"2^15+1", 1, 15, 1}, {"2^16+1", 1, 16, 1}, {"2^63+1", 1, 63, 1}, {"2^64+1", 1, 64, 1}, {"2^127+1", 1, 127, 1}, {"2^1024+1", 1, 1024, 1},
+			                // bit lengths just below a multiple of 8 / 64 (7, 15, 61..63, 127, 255, 1023, 2047 bits): a sampler that rounds the
+			                // number of drawn bits down to bytes or words leaves fewer than the 64 guard bits exactly for these
+			                {"3*2^5", 3, 5, 0}, {"3*2^13", 3, 13, 0}, {"3*2^59", 3, 59, 0}, {"3*2^60", 3, 60, 0}, {"3*2^61", 3, 61, 0}, {"5*2^60", 5, 60, 0}, {"3*2^125", 3, 125, 0},
+			                {"5*2^252", 5, 252, 0}, {"3*2^1021", 3, 1021, 0}, {"3*2^2045", 3, 2045, 0},
 			                {"2^2-1", 1, 2, -1}, {"2^7-1", 1, 7, -1}, {"2^8-1", 1, 8, -1}, {"2^16-1", 1, 16, -1}, {"2^64-1", 1, 64, -1}, {"2^128-1", 1, 128, -1}, {"2^1023-1", 1, 1023, -1}};
 			for (const M &m : ms) {
 				// tmcg_mpz_ssrandomm opens /proc/sys/kernel/random/entropy_avail on every call (~10 us): the
